@@ -40,6 +40,18 @@ func init() {
 		tok := append([]byte(nil), result.Token...)
 		return encBytes(tok) + " " + encBytes(state.Dump())
 	}
+	// implementation only (the model has no GenBankParser): used by the oracle and for replay
+	extraOps["origin.scan"] = func(a []sexp) string {
+		seqs, err := c16Scan(decBytes(a[0]))
+		out := make([]string, 0, len(seqs)+1)
+		for _, q := range seqs {
+			out = append(out, encBytes(q))
+		}
+		if err != nil {
+			out = append(out, "ERR")
+		}
+		return strings.Join(out, " ")
+	}
 	block := func(a []sexp) (int, []byte) {
 		n := decInt(a[0])
 		return n, seqio.NewOrigin(c16Gen(n, decInt(a[1]), decInt(a[2]))).Buffer
@@ -60,6 +72,22 @@ func init() {
 		buf, rest, err := c16Parse(c16ParseInput(b, c), n)
 		return pairOrErr(c16Digest, buf, rest, err)
 	}
+}
+
+// c16Scan runs the public scanner (seqio.NewScanner(seqio.GenBankParser, …)) over whole records:
+// the residues of every sequence it yields, then ERR if it stopped with an error.
+func c16Scan(input []byte) (seqs [][]byte, err error) {
+	sc := seqio.NewScanner(seqio.GenBankParser, bytes.NewReader(input))
+	for sc.Scan() {
+		seqs = append(seqs, append([]byte(nil), sc.Value().Bytes()...))
+	}
+	return seqs, sc.Err()
+}
+
+// c16Record: a minimal GenBank record around an ORIGIN block, declaring n residues.
+func c16Record(n int, block []byte) []byte {
+	head := fmt.Sprintf("LOCUS       TEST %22d bp    DNA     linear   UNA 01-JAN-2000\nDEFINITION  x.\nORIGIN      \n", n)
+	return append(append([]byte(head), block...), []byte("//\n")...)
 }
 
 func nilOr(enc func([]byte) string, p []byte) string {
@@ -201,8 +229,6 @@ func c16ClosedLen(n int) int {
 }
 
 // --- oracle -------------------------------------------------------------------
-
-const c16K = "K16a" // known finding: the slow path ignores characters behind the declared residues
 
 func recovered(f func()) (panicked bool) {
 	defer func() {
@@ -449,31 +475,46 @@ func c16Damaged(r *Run, b []byte, n int, label string) {
 		return
 	}
 	fast := fastOn(st, n)
-	var tok []byte
+	var tok, rest []byte
 	var err error
-	slow := !recovered(func() { tok, _, err = c16Slow(st, n) }) && err == nil
+	slow := !recovered(func() { tok, rest, err = c16Slow(st, n) }) && err == nil
 	lf := !bytes.Contains(b, []byte("\r"))
+	blanks := bytes.Contains(st, []byte(" \n"))
 	r.count(fmt.Sprintf("damaged/lf=%v,fast=%v,slow=%v", lf, fast, slow))
+	if so == "PANIC" {
+		r.fail(Failure{Oracle: "the slow path never panics", Op: sOp, Got: so})
+	}
 	switch {
 	case fast && !slow:
 		r.fail(Failure{Oracle: "fast and slow path accept the same blocks (fast accepts, slow rejects)", Op: vOp + " ; " + sOp, Got: "OK ; " + so})
+	case slow && !fast && lf && !blanks:
+		// (blocks with CR take the slow path by design, and only the slow path tolerates blanks
+		// behind the residues of a line: no claim that the fast path accepts those)
+		r.fail(Failure{Oracle: "fast and slow path accept the same LF blocks without trailing blanks (slow accepts, fast rejects)", Op: vOp + " ; " + sOp, Got: "ERR ; " + so})
 	case slow && !fast && lf:
-		// (blocks with CR take the slow path by design: no claim that the fast path accepts them)
-		f := Failure{Oracle: "fast and slow path accept the same LF blocks (slow accepts, fast rejects)", Op: vOp + " ; " + sOp, Got: "ERR ; " + so}
-		// K16a: the slow path dropped characters of the input (its token is not the input prefix)
-		if len(tok) > len(st) || !bytes.Equal(tok, st[:len(tok)]) {
-			f.Finding = c16K
-		}
-		r.fail(f)
+		r.count("damaged/trailing-blanks-accepted-by-slow-path-only")
 	case fast && slow:
 		var d1, d2 []byte
 		if recovered(func() { d1 = c16Bytes(st[:size]); d2 = c16Bytes(tok) }) || !bytes.Equal(d1, d2) {
 			r.fail(Failure{Oracle: "fast and slow path produce the same residues", Op: sOp, Got: encBytes(d2), Want: encBytes(d1)})
 		}
 	}
-	// the combined reader accepts iff one of its two paths does
-	if (po != "ERR" && po != "PANIC") != (fast || slow) {
-		r.fail(Failure{Oracle: "the reader accepts exactly what its fast or slow path accepts", Op: pOp, Got: po})
+	// the combined reader accepts iff one of its two paths does and no further sequence line follows
+	if fast {
+		rest = st[size:]
+	}
+	want := (fast || slow) && !(len(rest) > 0 && rest[0] == ' ')
+	if po == "PANIC" {
+		r.fail(Failure{Oracle: "the reader never panics", Op: pOp, Got: po})
+	} else if (po != "ERR") != want {
+		r.fail(Failure{Oracle: "the reader accepts exactly what its fast or slow path accepts, unless a further sequence line follows", Op: pOp, Got: po})
+	} else if want {
+		// whatever the reader accepts decodes to exactly the declared number of residues
+		buf, _, _ := c16Parse(in, n)
+		var d []byte
+		if recovered(func() { d = c16Bytes(buf) }) || len(d) != n || c16Len(buf) != n {
+			r.fail(Failure{Oracle: "an accepted block decodes to the declared number of residues", Op: pOp, Got: po, Want: itoa(n)})
+		}
 	}
 }
 
@@ -490,6 +531,71 @@ func fastOn(st []byte, n int) bool {
 func slowOn(in []byte, n int) bool {
 	var err error
 	return !recovered(func() { _, _, err = c16Slow(in, n) }) && err == nil
+}
+
+// c16Mismatch: an intact block of m residues read with a declared length n != m must be an error
+// of the reader and of the public scanner — never a shortened, padded or empty sequence, never a
+// panic — whether the record is the last one or is followed by another record.
+func c16Mismatch(r *Run, m, n, k, s int) {
+	p := c16Gen(m, k, s)
+	blk := seqio.NewOrigin(p).Buffer
+	next := c16Record(7, seqio.NewOrigin([]byte("acgtacg")).Buffer)
+	for _, followed := range []bool{false, true} {
+		tail := []byte("//\n")
+		if followed {
+			tail = append(tail, next...)
+		}
+		in := append(append([]byte("ORIGIN      \n"), blk...), tail...)
+		pOp := fmt.Sprintf("origin.parse %s %d", encBytes(in), n)
+		po := r.op(pOp)
+		r.count(fmt.Sprintf("mismatch/declared%s,followed=%v", map[bool]string{true: "<present", false: ">present"}[n < m], followed))
+		r.eval(fmt.Sprintf("m|%d|%d|%d|%v", m, n, k, followed), true)
+		if po != "ERR" {
+			r.fail(Failure{Oracle: "the reader rejects a block whose residue count differs from the declared length", Op: pOp, Got: po, Want: "ERR"})
+		}
+		rec := c16Record(n, blk)
+		if followed {
+			rec = append(rec, next...)
+		}
+		scOp := "origin.scan " + encBytes(rec)
+		var seqs [][]byte
+		var err error
+		if recovered(func() { seqs, err = c16Scan(rec) }) {
+			r.fail(Failure{Oracle: "the scanner does not panic on a record whose ORIGIN differs from the declared length", Op: scOp, Got: "PANIC", Want: "ERR"})
+		} else if err == nil || len(seqs) != 0 {
+			r.fail(Failure{Oracle: "the scanner reports an error for a record whose ORIGIN differs from the declared length (no shortened or empty sequence)", Op: scOp, Got: execOp(scOp), Want: "ERR"})
+		}
+	}
+}
+
+// c16Blanks: blanks behind the residues of a line are tolerated (files in the wild have them);
+// the residues read are unchanged.
+func c16Blanks(r *Run, m, k, s int) {
+	p := c16Gen(m, k, s)
+	lines := bytes.SplitAfter(seqio.NewOrigin(p).Buffer, []byte("\n"))
+	var blk []byte
+	for _, l := range lines {
+		if len(l) > 0 && r.rng.intn(2) == 0 {
+			l = append(append(append([]byte(nil), l[:len(l)-1]...), bytes.Repeat([]byte(" "), 1+r.rng.intn(3))...), '\n')
+		}
+		blk = append(blk, l...)
+	}
+	in := append(append([]byte("ORIGIN      \n"), blk...), []byte("//\n")...)
+	pOp := fmt.Sprintf("origin.parse %s %d", encBytes(in), m)
+	po := r.op(pOp)
+	r.op(fmt.Sprintf("origin.slow %s %d", encBytes(in[13:]), m))
+	r.count("trailing-blanks")
+	r.eval(fmt.Sprintf("b|%d|%d|%d", m, k, s), m > 0)
+	buf, _, err := c16Parse(in, m)
+	var d []byte
+	if err != nil || recovered(func() { d = c16Bytes(buf) }) || !bytes.Equal(d, p) {
+		r.fail(Failure{Oracle: "blanks behind the residues of a line are accepted and the residues are unchanged", Op: pOp, Got: po})
+	}
+	rec := c16Record(m, blk)
+	seqs, err := c16Scan(rec)
+	if err != nil || len(seqs) != 1 || !bytes.Equal(seqs[0], p) {
+		r.fail(Failure{Oracle: "the scanner reads a record whose ORIGIN lines carry trailing blanks", Op: "origin.scan " + encBytes(rec), Got: execOp("origin.scan " + encBytes(rec)), Want: encBytes(p)})
+	}
 }
 
 func propC16(r *Run) {
@@ -591,8 +697,37 @@ func propC16(r *Run) {
 			r.sample(fmt.Sprintf("origin.slow %s %d", encBytes(b), nn))
 		}
 	}
-	// the recorded witness shapes of K16a, always
+	// the witness shapes of the repaired defect F10, always
 	c16Damaged(r, []byte("        1 ab\n"), 1, "trailing-characters")
 	c16Damaged(r, []byte("        1 ab"), 1, "trailing-characters")
 	c16Damaged(r, []byte("        1 acgtacgtac gt\n"), 10, "trailing-characters")
+	c16Damaged(r, []byte("        1 a  \n"), 1, "trailing-characters")
+
+	// 5. declared length versus residues present, at the reader and at the public scanner
+	mMax := 130
+	if r.tier == "thorough" {
+		mMax = 400
+	}
+	for m := 0; m <= mMax; m++ {
+		for _, d := range []int{-61, -60, -59, -11, -10, -9, -1, 1, 9, 10, 11, 59, 60, 61} {
+			if n := m + d; n >= 0 {
+				c16Mismatch(r, m, n, m%len(c16Alphabets), seed+m)
+			}
+		}
+		if m > 0 {
+			c16Mismatch(r, m, 0, m%len(c16Alphabets), seed+m)
+		}
+		c16Blanks(r, m, m%len(c16Alphabets), seed+m)
+		// sanity of the record builder: the intact record scans to its residues
+		p := c16Gen(m, m%len(c16Alphabets), seed+m)
+		rec := c16Record(m, seqio.NewOrigin(p).Buffer)
+		if seqs, err := c16Scan(rec); err != nil || len(seqs) != 1 || !bytes.Equal(seqs[0], p) {
+			r.fail(Failure{Oracle: "the scanner reads back a minimal record around a written block", Op: "origin.scan " + encBytes(rec), Got: execOp("origin.scan " + encBytes(rec)), Want: encBytes(p)})
+		}
+	}
+	for t := 0; t < mMax; t++ { // several-line blocks with four-digit indices
+		m := r.rng.rangeInt(900, 1500)
+		n := m + []int{-600, -61, -60, -1, 1, 60, 61, 600}[r.rng.intn(8)]
+		c16Mismatch(r, m, n, r.rng.intn(len(c16Alphabets)), seed+t)
+	}
 }
